@@ -51,13 +51,14 @@ def gxx_traits(wd, ks):
 
 
 def real_traits(bdir, wd, ks):
-    rc, so, se = iglib.sh([str(bdir / "bin" / "parse_file"), "-p", "hier.h"], cwd=str(wd), timeout=120, input=("".join(k.name + "\n" for k in ks)).encode())
+    rc, so, se = iglib.sh([str(bdir / "bin" / "parse_file"), "-p", "hier.h"], cwd=str(wd), timeout=120, input=("".join((k.query() if hasattr(k, "query") else k.name) + "\n" for k in ks)).encode())
+    back = dict((k.name + "_T", k.name) for k in ks if getattr(k, "templ", False))
     out = {}
     cur = None
     for line in so.split("\n"):
         m = re.match(r"^Type: (?:struct |class )?(\w+)", line)
         if m:
-            cur = m.group(1)
+            cur = back.get(m.group(1), m.group(1))
             out[cur] = {}
             continue
         m = re.match(r"^(is_\w+) = (\d+)", line)
@@ -91,8 +92,11 @@ def run(ck):
             tries += 1
             if tries % 6 == 0:
                 ks = hiergen.gen_covariant(rng, rng.randrange(2, 6))
+            elif tries % 6 in (1, 2):
+                # explicitly defaulted members over bases and members whose own members are deleted or inaccessible; class templates
+                ks = hiergen.gen_hierarchy(rng, rng.randrange(2, 6), allow_virtual_bases=False, bias="defaulted", templates_p=rng.choice([0.0, 0.3]))
             else:
-                ks = hiergen.gen_hierarchy(rng, rng.randrange(2, 7), allow_virtual_bases=rng.random() < 0.5)
+                ks = hiergen.gen_hierarchy(rng, rng.randrange(2, 7), allow_virtual_bases=rng.random() < 0.5, templates_p=rng.choice([0.0, 0.0, 0.25]))
             text = hiergen.program_text(ks)
             # a published marker makes every class visible to interrogate without touching its traits
             pub = re.sub(r"\n\};\n", lambda m: "\n__published:\n  int marker();\n};\n", text)
@@ -115,7 +119,7 @@ def run(ck):
             for k, m in zip(ks, model):
                 g, w = got[k.name], want[k.name]
                 mm = dict(kv.split("=") for kv in m.split()) if "=" in m else {}
-                feats = [diamond_key(k), "bases%d" % min(len(k.bases), 2), "abstract" if w["abstract"] else "concrete"]
+                feats = [diamond_key(k), "bases%d" % min(len(k.bases), 2), "abstract" if w["abstract"] else "concrete"] + (["class-template"] if k.templ else [])
                 real_line = "abstract=%d default=%d copy=%d destructible=%d" % (g.get("is_abstract", -1), g.get("is_default_constructible", -1),
                                                                                  g.get("is_copy_constructible", -1), g.get("is_destructible", -1))
                 model_line = "abstract=%s default=%s copy=%s destructible=%s" % (mm.get("abstract"), mm.get("default"), mm.get("copy"), mm.get("destructible"))
@@ -148,7 +152,7 @@ def run(ck):
             for k in ks:
                 w = want[k.name]
                 t = d["types"].get(k.name)
-                if t is None:
+                if t is None or k.templ:      # a class template instance is listed under its template name: only its traits are compared
                     continue
                 protos = d["functions"].get("%s::%s" % (k.name, k.name), [])
                 has_def = any(re.search(r"::%s\(void\) = default" % k.name, p) for p in protos)
@@ -166,7 +170,10 @@ def run(ck):
                     ck.violation("implicit-copy-ctor:" + diamond_key(k), "implicit copy constructor of %s: exported=%s, g++ `new T(const T&)` well-formed=%s" % (k.name, has_copy, bool(w["newc"])),
                                  {"hier.h": pub, "class.txt": k.name + "\n"}, "\n".join(protos))
                 has_dtor = "destructor" in t
-                if k.dtor is None and has_dtor != bool(w["destructible"]):      # the property speaks of the implicit destructor
+                # the implicit destructor: exported exactly when C++ provides an accessible one.  A declared one (`~T();`, `= default`,
+                # `= delete`) is exported under the export rules (C04) and the inherited-virtual-destructor shortcut, so only the direction
+                # "never a destructor C++ does not provide" is demanded of it
+                if (has_dtor != bool(w["destructible"])) if k.dtor is None else (has_dtor and not w["destructible"]):
                     ck.violation("destructor-export:" + diamond_key(k), "destructor of %s: exported=%s, std::is_destructible=%s" % (k.name, has_dtor, bool(w["destructible"])),
                                  {"hier.h": pub, "class.txt": k.name + "\n"}, str(t))
         # ---- the virtual-base diamond (known finding): one path overrides the pure function of the shared base --------------------------
